@@ -1,26 +1,21 @@
 SPECIFICATION Spec
 CONSTANTS
-  Cats = {"runtime"}
+  Cats = {"runtime", "instructor"}
   Prios = {"none"}
   Trigs = {FALSE, TRUE}
-  Muteds = {FALSE}
+  Muteds = {FALSE, TRUE}
   Kinds = {"Mistake"}
   Elses = {FALSE}
   Labels = {"a"}
   Flds = {"f1"}
-  Corrects = {"F"}
+  Corrects = {"T", "F"}
   Valences = {"neg"}
   Scores = {"none"}
   Unscoreds = {FALSE}
-  Msgs = {"text"}
+  Msgs = {"text", "empty"}
   SuppU <- SuppScore
   MaxFb = 2
   MaxSupp = 1
-  Variant = "unstable_sort"
-INVARIANT ShownIsBest
-INVARIANT DefaultIffNone
+  Variant = "blank_message_skipped"
 INVARIANT CorrectIff
-INVARIANT ScoreIs
-INVARIANT NoCorrectWithVisibleNegative
-INVARIANT RankAgrees
 CHECK_DEADLOCK FALSE
